@@ -173,6 +173,31 @@ func TestVerifC05(t *testing.T) {
 			probeAll(secs, off)
 		})
 	}
+	// the section table delivered by the real multiboot.VisitElfSections from an encoded info block:
+	// starts off a page boundary whose tail crosses into one more page, empty sections, junk in the
+	// upper half of the flags word
+	for v := 0; v < 2; v++ {
+		v := v
+		bcase("b-multiboot-elf", func() {
+			g.refill(70)
+			secs := []uint64{
+				5, off + 0x100032, 0x1000,
+				3, off + 0x103ff0, 0x20,
+				1 | 1<<40, off + 0x105001, 0xfff,
+				7, off + 0x107fff, 2,
+				2, off + 0x10a000, 0, // empty: not reported
+				4 | 1<<33, off + 0x10c000, 4096,
+				6, 0x100000, 8192, // below the offset
+				0, off + 0x10e123, 3 * 4096,
+			}
+			if v == 1 {
+				secs = append([]uint64{3, off, 4097}, secs...)
+			}
+			g.do("secsmb", secs...)
+			g.do("setup", off)
+			probeAll(secs, off)
+		})
+	}
 	// many sections: every in-range one must be mapped, whatever their number
 	for _, cnt := range []int{16, 17, 20, 40} {
 		cnt := cnt
@@ -364,7 +389,14 @@ func TestVerifC05(t *testing.T) {
 				}
 			}
 		}
-		g.do("secs", secs...)
+		if o != 0 && r.chance(50) { // through the real multiboot decoder (its string table is a host address: not with offset 0)
+			if r.chance(20) && len(secs) >= 3 {
+				secs = append(secs, uint64(r.intn(8)), base+0x70000000, 0) // an empty section
+			}
+			g.do("secsmb", secs...)
+		} else {
+			g.do("secs", secs...)
+		}
 		if r.chance(30) { // allocator failure somewhere on the way
 			g.refill(r.intn(14))
 		}
